@@ -51,7 +51,8 @@ def conds_negotiateContentEncoding : List String := [
   ]
 
 def conds_streamHTTP_SendMsg : List String := [
-   "range s.method.resp",
+   "if err != nil",
+   "return err",
    "if err != nil",
    "return err",
    "defer func() { if cap(b) < s.opts.maxReceiveMessageSize { *bytes = b bytesPool.Put(bytes) } }()",
